@@ -143,11 +143,11 @@ def session : Op := fun j => do
   let script ← (← getArr j "script").mapM evFromJson
   let r := processDatagram accepts data
   let mut port : List (String × Json) :=
-    [("reqport_model", jBool (requestPortOK (replyOf r) (transfersOf r) false))]
+    [("reqport_model", jBool (requestPortOK2 data (replyOf r) (transfersOf r) false))]
   match j.getObjVal? "impl_main" with
   | .ok (Json.arr a) =>
     let replies ← a.toList.mapM (fun x => do fromHex (← x.getStr?))
-    port := port ++ [("reqport_impl", jBool (requestPortOK replies (← getNat j "impl_transfers") (← getBool j "impl_main_exc")))]
+    port := port ++ [("reqport_impl", jBool (requestPortOK2 data replies (← getNat j "impl_transfers") (← getBool j "impl_main_exc")))]
   | _ => pure ()
   match r with
   | .transfer rrq i =>
